@@ -113,6 +113,7 @@ func init() {
 				default:
 				}
 				synctest.Wait()
+				w.checkStreamIntegrity("after-resume")
 			}
 		}
 		return p
@@ -191,6 +192,7 @@ func eventsSetup(w *vfWorld) {
 			if p.intent.CertReq != nil {
 				path = "certgen:" + p.intent.CertReq.Type
 			}
+			w.returnedCerts[string(want)]++
 			for _, s := range w.subs {
 				if s.mode != "fast" || s.closed || !s.connected || s.everStalled {
 					continue
@@ -224,6 +226,29 @@ func eventsSetup(w *vfWorld) {
 	})
 }
 
+// Whatever a subscriber received - also one that lagged behind and caught up later - is a certificate the daemon
+// really returned, byte for byte, and not more often than it was returned.
+func (w *vfWorld) checkStreamIntegrity(when string) {
+	for _, s := range w.subs {
+		got := map[string]int{}
+		for _, ev := range s.events {
+			if ev.Type != eventmon.EventTypeSSHCert && ev.Type != eventmon.EventTypeX509Cert {
+				continue
+			}
+			got[string(ev.CertData)]++
+		}
+		for b, n := range got {
+			switch ret := w.returnedCerts[b]; {
+			case ret == 0:
+				w.violate("C20", "bytes-differ", "bytes-differ:stream:"+when, fmt.Sprintf("subscriber %d received a certificate event whose bytes no response carried", s.id))
+			case n > ret:
+				w.violate("C20", "bytes-differ", "event-duplicated:stream:"+when, fmt.Sprintf("subscriber %d received the same certificate %d times, it was returned %d time(s): queued events were overwritten by a later one", s.id, n, ret))
+			}
+		}
+		w.probe("stream-integrity-checked")
+	}
+}
+
 func (w *vfWorld) expectEvent(typ, user, what string) {
 	for _, s := range w.subs {
 		if s.mode != "fast" || s.closed || !s.connected || s.everStalled {
@@ -246,6 +271,7 @@ func eventsFinal(w *vfWorld) {
 	if w.aborted {
 		return // a stuck publisher may hold the notifier's lock: leave every subscriber alone
 	}
+	w.checkStreamIntegrity("final")
 	for _, s := range w.subs {
 		if !s.closed {
 			s.client.Close()
